@@ -366,5 +366,5 @@ SANITIZER_PLAN = {
     "C18": [("miri", "c18", 8, 10, {}), ("asan", "c18", 8, 5000, {})],
     "C19": [("miri", "c19", 8, 1, {"threaded": 2}), ("tsan", "c19", 8, 30, {"threaded": 300}),
             ("asan", "c19", 4, 30, {"threaded": 100})],
-    "C20": [("miri", "c20", 2, 2, {"exhaustive_len": 3})],
+    "C20": [("miri", "c20", 2, 2, {"exhaustive_len": 3, "prefix_take": 20})],
 }
